@@ -72,7 +72,7 @@ ndirs = [d for d in sorted(glob.glob('/verif/seeded/neutral/*')) if os.path.exis
 with cf.ThreadPoolExecutor(8) as ex:
     neutrals = list(ex.map(neutral, ndirs))
 # mechanical behaviour-preserving rewrites (tools/neutralfuzz), one whole-package variant per rewrite: silent for this property
-TRANSFORMS = 'rename invert swapeq negform demorgan parens constextract hoistcond guard2else switch2if retlocal varform reorder splitinit mergeinit hoistarg ret2else splitand lencmp incr boolret predfunc rangeidx elsenest swapand kvorder caseorder renamefile extractblock countloop'.split()
+TRANSFORMS = 'rename invert swapeq negform demorgan parens constextract hoistcond guard2else switch2if retlocal varform reorder splitinit mergeinit hoistarg ret2else splitand lencmp incr boolret predfunc rangeidx elsenest swapand kvorder caseorder renamefile extractblock countloop flag2counter labelcontinue joinvar'.split()
 if not os.path.exists('/verif/bin/neutralfuzz') or any(os.path.getmtime(f) > os.path.getmtime('/verif/bin/neutralfuzz') for f in glob.glob('/verif/tools/neutralfuzz/*.go')):
     subprocess.run(['go', 'build', '-o', '/verif/bin/neutralfuzz', '.'], cwd='/verif/tools/neutralfuzz', env=ENV)
 def rewrite(job):
